@@ -186,6 +186,8 @@ pub mod verif_hook {
     use std::cell::RefCell;
     /// marker pushed at the start of every `run_a_star` call
     pub const RUN_MARKER: usize = usize::MAX;
+    /// marker pushed before every intersection vertex popped by the single-via k-shortest-paths loop
+    pub const KSP_POP_MARKER: usize = usize::MAX - 1;
     thread_local! {
         static POP_TRACE: RefCell<Option<Vec<usize>>> = const { RefCell::new(None) };
     }
